@@ -11,7 +11,8 @@ open UnitHome
 /-- the configuration the driver runs and `C13Home.live_histories_isolated` speaks about: an entry point the
     probe did not measure counts as passing `registry=` (conservative) -/
 def liveHomeCfg : UnitHome.Cfg :=
-  ⟨fun ep => (Generated.convPasses.lookup ep).getD true, Generated.convFastAssigns⟩
+  ⟨fun ep => (Generated.convPasses.lookup ep).getD true, Generated.convFastAssigns,
+   fun ep => (Generated.convRelabels.lookup ep).getD false⟩
 
 namespace C13Home
 
